@@ -126,8 +126,18 @@ def same_shape(a, b):
 
 
 @st.composite
+def _long_structure(draw):
+    """a list / tuple / dict of 40-130 leaves, possibly one level below the top: size-dependent paths of the lifting loop"""
+    n = draw(st.sampled_from([40, 64, 65, 100, 130]))
+    t = draw(st.sampled_from(['list', 'tuple', 'dict']))
+    leaves = [['leaf', i % 7] for i in range(n)]
+    node = [t, leaves] if t != 'dict' else ['dict', [['k%03i' % i, l] for i, l in enumerate(leaves)]]
+    return node if draw(st.booleans()) else ['list', [node, ['leaf', 'tail']]]
+
+
+@st.composite
 def _lift_case(draw):
-    s = draw(_structure)
+    s = draw(st.one_of(*([_structure] * 9 + [_long_structure()])))
     d = depth(s)
     ncomp = draw(st.sampled_from([0, 1, 1, 2, 2]))
     comps = []
@@ -198,6 +208,14 @@ def run_lift(spec):
                 walk(k)
     walk(s)
     cls = ['depth=%i' % d, 'ncomp=%i' % len(spec['comps'])] + kinds + (['first_by_keyword'] if spec['first_kw'] else [])
+
+    def _maxlen(s):
+        if s[0] == 'leaf':
+            return 0
+        kids = s[1] if s[0] in ('list', 'tuple') else [v for _, v in s[1]]
+        return max([len(kids)] + [_maxlen(k) for k in kids])
+    if _maxlen(s) >= 40:
+        cls.append('container_of_40+')
     if d >= 2 and pos_same:
         cls.append('depth>=2_positional_same_shape')
     if len(tags) >= 2:
@@ -480,7 +498,7 @@ SUBS = [
         rule='nested list/tuple/dict/Dict/dictattr structures (depth <= 4) with 0-2 companions (scalar, same shape to full or partial depth, flat list of other length, '
              'dict over other keys), each positional or by keyword, first argument positional or by keyword; oracle: recursive leaf-map model, exact container types. '
              'non-trivial = depth >= 2 with a same-shape positional companion, or mixed container types',
-        floor=0.2, class_floors={'depth>=2_positional_same_shape': 0.08, 'first_by_keyword': 0.05}),
+        floor=0.2, class_floors={'depth>=2_positional_same_shape': 0.08, 'first_by_keyword': 0.05, 'container_of_40+': 0.03}),
     Sub('libfuncs', lambda tier: _lib_case(), run_lib, quick=2500, thorough=15000,
         rule='lower/upper/strip/proper/capitalize/f12/as_float/replace/split on nested structures with string, number and None leaves; oracle: result equals the structure '
              'with the function applied to every leaf on its own, and (where python has the method) the python string method at string leaves. non-trivial = depth >= 2',
